@@ -27,7 +27,7 @@ func C01(c *core.Ctx) {
 		valued := i%2 == 1
 		j := kj.Random(rng, kj.GenOpts{Valued: valued, Accruals: !valued, MaxDirs: 12}, 18262+rng.Intn(60))
 		for k := 0; k < 2; k++ {
-			bcs = append(bcs, balCase{J: j, F: randomFlags(rng, j, flagOpts{Valued: valued})})
+			bcs = append(bcs, balCase{J: j, F: randomFlags(rng, j, flagOpts{Valued: valued, Mapping: len(bcs)%3 == 2, NoHide: true})})
 		}
 	}
 	runBalance(c, "C01", bcs, 1, func(cs map[string]any) bool {
